@@ -271,3 +271,24 @@ class Stack:
         if negotiate:
             await self.ezsp.startup_reset()
         return self.ezsp
+
+
+class BringUpFailed(Exception):
+    """The real stack could not complete connect / reset / version negotiation against a
+    fault-free simulated NCP: commands are not getting their responses."""
+
+
+async def started(loop, version, acc, prop, **kw):
+    """Stack(...).start() that turns a failing fault-free bring-up into a violation of `prop`
+    (each hosting property states that a command returns the response carrying its sequence
+    number) instead of a crashed shard."""
+    st = Stack(loop, version, **kw)
+    try:
+        await st.start()
+    except BaseException as e:  # noqa: BLE001
+        reqs = [(r[1], r[5], r[4].hex()) for r in st.ncp.requests[-4:]]
+        acc.violation(f"{prop}/setup/fault-free-bring-up-failed",
+                      f"v{version}: connect/startup_reset against a fault-free NCP ended with {e!r}; "
+                      f"last requests seen by the NCP: {reqs}", {"version": version, "part": "bring-up"})
+        raise BringUpFailed(repr(e)) from None
+    return st
